@@ -256,6 +256,11 @@ impl RuntimeData {
 
     pub fn clear(&mut self) {
         self.clear_objects();
+        // a cleared VM collects at the same points as a fresh one
+        let limit = self.memory.limit.load(std::sync::atomic::Ordering::Relaxed);
+        self.memory
+            .next_gc
+            .store((limit / 4).max(16), std::sync::atomic::Ordering::Relaxed);
         self.value_stack.clear();
         self.global_vars.clear();
         self.call_stack.clear();
